@@ -29,7 +29,8 @@ Example w_offer_codes :
   option_map snd (step (wc Mem false true) init (LOffer 0 4)) = Some c_await /\
   option_map snd (step (wc Mem false false) init (LOffer 0 5)) = Some c_toolarge /\
   option_map snd (step (wc Pers false false) init (LOffer 0 5)) = Some c_full /\
-  option_map snd (step (wc Pers true false) init (LOffer 0 5)) = Some c_blocked /\
+  option_map snd (step (wc Pers true false) init (LOffer 0 5)) = Some c_toolarge /\
+  option_map snd (step (wc Pers true false) (final (wc Pers true false) [LOffer 0 4]) (LOffer 1 1)) = Some c_blocked /\
   option_map snd (step (wc Pers false false) init (LOffer 0 0)) = Some c_enq /\
   option_map snd (step (wc Mem false false) init (LOffer 0 0)) = Some c_zero.
 Proof. vm_compute. repeat split; reflexivity. Qed.
@@ -41,7 +42,7 @@ Definition q_trace : list label :=
    LRelockTok 1; LRead; LDone 1 0].
 Example q_quiescent :
   let c := wc Pers true false in let s := final c q_trace in
-  reachable_fit c s /\ quiescent c s /\ lock s = Free /\ hand s = [0; 1]%nat /\
+  reachable c s /\ quiescent c s /\ lock s = Free /\ hand s = [0; 1]%nat /\
   pget 1%nat (prods s) = Some (PRet ROk) /\ pget 2%nat (prods s) = Some (PRet RCtx).
 Proof.
   split; [|split].
@@ -51,13 +52,6 @@ Proof.
       try (destruct id as [|[|[|id]]]; vm_compute; reflexivity).
   - vm_compute. repeat split; reflexivity.
 Qed.
-
-(* S1 collateral: the oversized waiter also steals the wake-ups of a waiter that fits *)
-Example s1_steals_wakeups :
-  exists c s, kind c = Pers /\ reachable c s /\ quiescent c s /\ lock s = Free /\
-    size s = 0 /\ items s = [] /\ inflight s = [] /\
-    pget 1%nat (prods s) = Some (PInSelect 1) /\ 1 <= cap c /\ ~ In 1%nat (cancelled s).
-Proof. exact s1_steals_wakeups_l. Qed.
 
 (* the persistent queue's reported size under-counts after its reset (allowed by the property's wording) *)
 Example pq_size_undercounts :
@@ -96,7 +90,7 @@ Qed.
 (* released_when_space / progress_while_stuck: a state satisfying their hypotheses with a parked producer *)
 Example w_released_hyp :
   let c := wc Mem true false in let s := final c [LOffer 0 4; LOffer 1 2; LRead] in
-  reachable_fit c s /\ stopped s = false /\ lock s = Free /\ stuck s /\ mu s = 11 /\
+  reachable c s /\ stopped s = false /\ lock s = Free /\ stuck s /\ mu s = 11 /\
   pget 1%nat (prods s) = Some (PInSelect 2).
 Proof.
   split; [exists [LOffer 0 4; LOffer 1 2; LRead]; split; [repeat constructor; simpl; intros; discriminate|vm_compute; reflexivity]|].
